@@ -306,10 +306,20 @@ func runLinear(c *harness.Ctx) harness.Result {
 		}
 		c.Stat("runs_with_over_128_sources", 1)
 	}
+	if !self && r.Intn(8) == 0 {
+		// one source that cannot be fetched, anywhere in the list: the others add up as before
+		at := r.Intn(len(srcs) + 1)
+		srcs = append(srcs[:at], append([]string{"missing"}, srcs[at:]...)...)
+		c.Stat("runs_with_an_unfetchable_source", 1)
+	}
 	if dup && !self {
 		// the same source named twice counts twice
-		srcs = append(srcs, srcs[0])
-		ins = append(ins, input{srcs[0], profs[srcs[0]], 1})
+		first := srcs[0]
+		if first == "missing" {
+			first = srcs[1]
+		}
+		srcs = append(srcs, first)
+		ins = append(ins, input{first, profs[first], 1})
 	}
 	want, finest := expected(ins, chosen.name)
 	unit := ""
